@@ -41,6 +41,7 @@ pub fn worker(ch: Channel, n: usize, mut r: Rng, h: Handle, prefix: String) -> (
             }
         }};
     }
+    let mut last_declared: Option<String> = None;
     for i in 0..n {
         let k = r.below(NKINDS);
         kinds.push(k);
@@ -51,6 +52,7 @@ pub fn worker(ch: Channel, n: usize, mut r: Rng, h: Handle, prefix: String) -> (
                 // named queue
                 match ch.queue_declare(name.clone(), QueueDeclareOptions::default()) {
                     Ok(q) => {
+                        last_declared = Some(name.clone());
                         let v = reply_val(id, seq);
                         if q.name() != name || q.declared_message_count() != Some(v) || q.declared_consumer_count() != Some(v ^ 0x5555_5555) {
                             errs.push(format!(
@@ -67,6 +69,7 @@ pub fn worker(ch: Channel, n: usize, mut r: Rng, h: Handle, prefix: String) -> (
                 // server-named queue
                 match ch.queue_declare("", QueueDeclareOptions::default()) {
                     Ok(q) => {
+                        last_declared = Some(gen_queue_name(id, seq));
                         let v = reply_val(id, seq);
                         if q.name() != gen_queue_name(id, seq) || q.declared_message_count() != Some(v) {
                             errs.push(format!("ch{} seq {} queue_declare(\"\") returned ({:?},{:?}), generated ({:?},{})", id, seq, q.name(), q.declared_message_count(), gen_queue_name(id, seq), v));
@@ -77,8 +80,15 @@ pub fn worker(ch: Channel, n: usize, mut r: Rng, h: Handle, prefix: String) -> (
                 seq += 1;
             }
             2 => {
-                match ch.queue_declare_passive(name.clone()) {
+                // by name, or by the empty name (= the queue this channel declared last: the
+                // reply then carries a name the call did not)
+                let (ask, name) = match &last_declared {
+                    Some(l) if r.chance(1, 3) => (String::new(), l.clone()),
+                    _ => (name.clone(), name.clone()),
+                };
+                match ch.queue_declare_passive(ask) {
                     Ok(q) => {
+                        last_declared = Some(q.name().to_string());
                         let v = reply_val(id, seq);
                         if q.name() != name || q.declared_message_count() != Some(v) {
                             errs.push(format!("ch{} seq {} queue_declare_passive returned ({:?},{:?}), generated ({:?},{})", id, seq, q.name(), q.declared_message_count(), name, v));
